@@ -4016,8 +4016,12 @@ class BnfEmitter(bnfListener.bnfListener):
                 for alternative in expansion
             ]
 
-        if free_langle_nonterminal not in unreachable_nonterminals(
-            self.result | {free_langle_nonterminal: ["<"]}
+        # The rule for "<" is needed whenever some rule refers to it, also a rule that
+        # is itself not reachable from the start symbol.
+        if any(
+            free_langle_nonterminal in alternative
+            for expansion in self.result.values()
+            for alternative in expansion
         ):
             self.result[free_langle_nonterminal] = ["<"]
 
